@@ -339,3 +339,14 @@ where
     let s = serde_wasm_bindgen::Serializer::new().serialize_maps_as_objects(true);
     obj.serialize(&s)
 }
+
+/// Source form of a number in a rendered model. `f64`'s `Display` writes an
+/// integral value without a decimal point, and the grammar reads digits without
+/// a point as an integer that has to fit 64 bits: from 2^63 on the point is kept.
+pub fn number_to_source(value: f64) -> String {
+    if value.is_finite() && value.fract() == 0.0 && value.abs() >= 9.2e18 {
+        format!("{:.1}", value)
+    } else {
+        value.to_string()
+    }
+}
